@@ -10,7 +10,6 @@ import (
 	"flag"
 	"fmt"
 	"os"
-	"runtime"
 	"strings"
 	"sync"
 	"sync/atomic"
@@ -56,16 +55,6 @@ type event struct {
 	kind string // submit:<how> | cancel-return | begin | end | popped | checked | returned
 	task string
 	info string
-	gid  int64 // popped / checked: the goroutine (handler) that got there
-}
-
-// goid is the number of the calling goroutine (from its stack header).
-func goid() int64 {
-	var buf [64]byte
-	n := runtime.Stack(buf[:], false)
-	var id int64
-	_, _ = fmt.Sscanf(string(buf[:n]), "goroutine %d ", &id)
-	return id
 }
 
 type recorder struct {
@@ -106,16 +95,6 @@ func (r *recorder) rec(kind, task, info string) int64 {
 	return s
 }
 
-// recG records an event together with the goroutine that made it.
-func (r *recorder) recG(kind, task string) {
-	g := goid()
-	r.mu.Lock()
-	r.seq++
-	r.events = append(r.events, event{seq: r.seq, at: time.Now(), kind: kind, task: task, gid: g})
-	r.mu.Unlock()
-	r.lastEvt.Store(time.Now().UnixNano())
-}
-
 func hook(point, ctx string) {
 	r := cur.Load()
 	if r == nil || !strings.HasPrefix(point, "tasks.") {
@@ -126,11 +105,15 @@ func hook(point, ctx string) {
 	}
 	switch point {
 	case "tasks.handler.popped":
-		r.recG("popped", ctx)
+		r.rec("popped", ctx, "")
+	case "tasks.sched.run":
+		// the schedule handler is about to run an overdue task itself (no queue in between)
+		r.rec("sched-run", ctx, "")
+		return
 	case "tasks.run.admitted":
 		// called with the task lock held: the order of this event and of a Cancel return is the real order of the
 		// admission decision and the cancel (recording after the unlock could be overtaken by a Cancel that came later)
-		r.recG("checked", ctx)
+		r.rec("checked", ctx, "")
 		return
 	case "tasks.exec.returned":
 		r.rec("returned", ctx, "")
@@ -537,9 +520,11 @@ func (c *caseSpec) judge(t fatalf, rs *runState, stuck string, final []taskFinal
 	for _, ts := range c.Tasks {
 		st[ts.Name] = &tstate{pendingSchedIx: -1}
 	}
-	// openPop: the task a handler goroutine has taken from a queue and not yet dealt with, as far as the events show (its
-	// next event - an admission of that task or its next pop - closes it)
-	openPop := map[int64]string{}
+	// What each of the two handlers is about to run (announced at a yield point right before its runWithLocking call) and
+	// has not dealt with yet, as far as the events show: an admission of that task, or the handler's next announcement,
+	// closes it. (Goroutine ids would tell the handlers apart exactly; reading them costs a stack walk under the task lock,
+	// which made the known slow-watcher stall of the queue - a minute each - frequent.)
+	qOpen, sOpen := "", ""
 	for _, e := range evs {
 		s := st[e.task]
 		if s == nil {
@@ -547,17 +532,21 @@ func (c *caseSpec) judge(t fatalf, rs *runState, stuck string, final []taskFinal
 		}
 		switch e.kind {
 		case "popped":
-			openPop[e.gid] = e.task
+			qOpen = e.task
+		case "sched-run":
+			sOpen = e.task
 		case "checked":
-			if openPop[e.gid] == e.task {
-				delete(openPop, e.gid)
-			}
 			// a handler that holds this task from before this admission may run it once more, whatever is submitted or not
-			s.prevHeld, s.held = s.held, false
-			for _, tk := range openPop {
-				if tk == e.task {
-					s.held = true
-				}
+			s.prevHeld = s.held
+			switch {
+			case qOpen == e.task && sOpen == e.task:
+				s.held = true // one of the two admitted it, the other still holds it
+			case qOpen == e.task:
+				qOpen, s.held = "", false
+			case sOpen == e.task:
+				sOpen, s.held = "", false
+			default:
+				s.held = false
 			}
 		}
 		switch e.kind {
@@ -747,6 +736,10 @@ func TestPropQueueOrder(t *testing.T) {
 			cur.Store(nil)
 			t.Fatalf("C07-4-lost: the plug task was not executed within 150 s although the queue was idle; case %+v", *o)
 		}
+		// (a plug that returns within microseconds of its start can end before the queue handler's watcher goroutine for
+		// it runs; the watcher then waits for the task's *next* context and holds the queue for a minute - the known
+		// slow-watcher stall, no matter of this property. Give the watcher time to start.)
+		time.Sleep(2 * time.Millisecond)
 		var running int32
 		var overlap int32
 		tasks := make([]*modules.Task, n)
@@ -873,6 +866,12 @@ func TestPropQueueOrder(t *testing.T) {
 			r.mu.Unlock()
 			if ends >= len(want) || time.Now().After(deadline) {
 				break
+			}
+			if os.Getenv("C07_DEBUG_STALL") != "" && time.Until(deadline) < 195*time.Second {
+				r.mu.Lock()
+				fmt.Fprintf(os.Stderr, "STALL in order case %+v\nwant %v\nevents:%s\n", *o, want, render(r.events))
+				r.mu.Unlock()
+				os.Exit(3)
 			}
 			time.Sleep(time.Millisecond)
 		}
